@@ -11,20 +11,20 @@
 (***************************************************************************)
 EXTENDS SM3, Gen
 CONSTANTS MaxPad, MaxMach
-VARIABLES len, k
-vars == <<len, k>>
+VARIABLES mclen, mck
+vars == <<mclen, mck>>
 Msg(l) == GenMsg([k |-> "mix", seed |-> 77], l)
-Init == len = 0 /\ k = 0
-Next == \/ len < MaxPad /\ len' = len + 1 /\ k' = 0
-        \/ len <= MaxMach /\ k < len \div 64 /\ k' = k + 1 /\ len' = len
+Init == mclen = 0 /\ mck = 0
+Next == \/ mclen < MaxPad /\ mclen' = mclen + 1 /\ mck' = 0
+        \/ mclen <= MaxMach /\ mck < mclen \div 64 /\ mck' = mck + 1 /\ mclen' = mclen
 PadOK2(l, p, q) == /\ p = q
                    /\ Len(p) % 64 = 0
                    /\ Len(p) = 64 * ((l + 9 + 63) \div 64)
                    /\ SubSeq(p, 1, l) = Msg(l) /\ p[l+1] = 128
                    /\ \A i \in (l+2)..(Len(p)-8) : p[i] = 0
-PadOK == PadOK2(len, Pad(Msg(len)), PadImpl(Msg(len)))
-MachOK2(m, n) == Finish(AbsorbTo(AbsorbTo(SM3Init, m, k), m, n), m) = Hash(m)
-MachOK == len <= MaxMach => MachOK2(Msg(len), len \div 64)
+PadOK == PadOK2(mclen, Pad(Msg(mclen)), PadImpl(Msg(mclen)))
+MachOK2(m, n) == Finish(AbsorbTo(AbsorbTo(SM3Init, m, mck), m, n), m) = Hash(m)
+MachOK == mclen <= MaxMach => MachOK2(Msg(mclen), mclen \div 64)
 \* ---- giant lengths: the length in bytes as 7 big-endian bytes, shifted left by 3 bits into 8 bytes ----
 L7(lhi, llo) == << (lhi \div 16777216) % 256, (lhi \div 65536) % 256, (lhi \div 256) % 256, lhi % 256,
                    (llo \div 65536) % 256, (llo \div 256) % 256, llo % 256 >>
